@@ -208,10 +208,42 @@ def waitChildren (res : Nat → WaitRes) (tracked : List Nat) : List Nat × List
   let p := pollAll res tracked
   (p.1, report p.2)
 
+/-! ## parent side of `uv_spawn`: the `pipes[]` table handed to the child -/
+
+/-- a stdio container, reduced to what decides the child-side column `pipes[i][1]` -/
+inductive Stdio where
+  | ignore
+  | inheritFd (fd : Int)      -- UV_INHERIT_FD / UV_INHERIT_STREAM
+  | createPipe                -- UV_CREATE_PIPE: the child end is a fresh socketpair end (kernel input)
+  deriving DecidableEq, Repr
+
+/-- entry of the child-side column: a descriptor number, or "the child end of slot's own socketpair" -/
+inductive Slot where
+  | fd (n : Int)
+  | pipeEnd
+  deriving DecidableEq, Repr
+
+/-- first loop of uv_spawn: every one of the `stdio_count` entries is set to -1, whether the table is
+the 8-slot inline array or heap memory -/
+def initTable (stdioCount : Nat) : List Slot := List.replicate stdioCount (.fd (-1))
+
+/-- second loop: `uv__process_init_stdio` overwrites entry i for each container (UV_IGNORE leaves it) -/
+def fillTable : List Stdio → List Slot → List Slot
+  | [], tbl => tbl
+  | _, [] => []
+  | .ignore :: cs, t :: tbl => t :: fillTable cs tbl
+  | .inheritFd fd :: cs, _ :: tbl => .fd fd :: fillTable cs tbl
+  | .createPipe :: cs, _ :: tbl => .pipeEnd :: fillTable cs tbl
+
+/-- `stdio_count = max(options->stdio_count, 3)`; the table uv_spawn passes to the child -/
+def parentTable (stdio : List Stdio) : List Slot :=
+  fillTable stdio (initTable (max stdio.length 3))
+
 /-! ## parent side of `uv_spawn` after `fork` (decision level) -/
 
 /-- what the parent's `read(signal_pipe[0])` returns, process.c:958-979 -/
 inductive PipeRead where
+  | forkFailed (e : Nat) -- `fork()` returned -1/errno e: no child, nothing to read (uv__spawn_and_init_child_fork)
   | eof                 -- the child reached exec: the close-on-exec write end was closed
   | errno (e : Nat)     -- the child wrote `-e` and `_exit(127)`ed
   | epipe
@@ -224,6 +256,7 @@ structure SpawnOut where
   deriving DecidableEq, Repr
 
 def spawnParent : PipeRead → SpawnOut
+  | .forkFailed e => ⟨-(e : Int), false, decide (-(e : Int) = 0)⟩
   | .eof => ⟨0, false, true⟩
   | .errno e => ⟨-(e : Int), true, decide (-(e : Int) = 0)⟩
   | .epipe => ⟨-32, true, false⟩
